@@ -61,5 +61,30 @@ Proof.
   - intros. reflexivity.
   - intros. reflexivity.
 Qed.
+(* the search around the narrow phase: which nodes search, in which voxel, which faces they try; the centring of coupled pairs *)
+Lemma in_box_gen_is_in_box : forall (T : Type) (N : Num T) (b : @box T) (p : vec3 T), in_box_gen N b p = in_box N b p.
+Proof.
+  intros. unfold in_box_gen, in_box.
+  destruct (nltb N (vx p) (vx (b_lo b))), (nltb N (vx (b_hi b)) (vx p)), (nltb N (vy p) (vy (b_lo b))), (nltb N (vy (b_hi b)) (vy p)),
+           (nltb N (vz p) (vz (b_lo b))), (nltb N (vz (b_hi b)) (vz p)); reflexivity.
+Qed.
+
+Definition search_tie : Prop :=
+  (forall (T : Type) (N : Num T) (b : @box T) (p : vec3 T), in_box_gen N b p = in_box N b p) /\
+  (forall (T : Type) (N : Num T) (c : @ccell T) (n : @cnode T), node_active_gen N (cn_used n) (cn_curv n) (cc_maxcurv c) = node_active N c n) /\
+  (forall (T : Type) (N : Num T) (floorZ : T -> Z) (g : @dims T) (p : vec3 T), node_voxel_gen N floorZ g p = raw3 N floorZ g p) /\
+  (forall (T : Type) (N : Num T) (c90 : T) (b : @box T) (n1 : @cnode T) (f : @cface T),
+     try_guard_gen N c90 b (cn_pos n1) (cn_normal n1) (cf_normal f) = in_box N b (cn_pos n1) && nltb N (vdot N (cn_normal n1) (cf_normal f)) c90) /\
+  (forall (T : Type) (N : Num T) (p1 p2 : vec3 T), centre_point_gen N p1 p2 = vscale N (vadd N p1 p2) (Contact.half N)).
+
+Theorem search_around_the_narrow_phase_is_what_the_source_says : search_tie.
+Proof.
+  unfold search_tie. split; [exact in_box_gen_is_in_box|]. split; [reflexivity|]. split.
+  - intros T N floorZ g p. unfold node_voxel_gen, raw3. destruct (d_lo g) as [[lx ly] lz]. reflexivity.
+  - split.
+    + intros. unfold try_guard_gen. rewrite in_box_gen_is_in_box. reflexivity.
+    + reflexivity.
+Qed.
+Print Assumptions search_around_the_narrow_phase_is_what_the_source_says.
 Print Assumptions narrow_phase_model_is_what_the_source_says.
 Print Assumptions resolve_contact_uses_the_decision.
